@@ -286,13 +286,12 @@ class Simulator(BaseSimObj):
             ] = schedule_matrix
         else:
             # We've reached the end of pilot_signals, so double pilot_signal array width
-            self.pilot_signals = _increase_width(
-                self.pilot_signals,
-                max(
-                    self.event_queue.get_last_timestamp() + 1,
-                    self._iteration + schedule_length,
-                ),
-            )
+            target_width = self._iteration + schedule_length
+            if not self.event_queue.empty():
+                target_width = max(
+                    self.event_queue.get_last_timestamp() + 1, target_width
+                )
+            self.pilot_signals = _increase_width(self.pilot_signals, target_width)
             self.pilot_signals[
                 :, self._iteration : (self._iteration + schedule_length)
             ] = schedule_matrix
